@@ -13,11 +13,12 @@
    request order (request i belongs to a group >= the group of request j whenever i >= j).
 
    NOT proven here (see notes/design/C04.md; checked on every run by the lock-step replay and
-   by the monitors of tools/props/c04.py only): the log forms rw_request_order (grant log
-   sorted), rw_sees_prior_writes, rw_granted_once, rw_progress, the value-refcount form of
-   rw_value_outlives, and "a read-write group has exactly one wrapper". *)
-From Coq Require Import List Arith.
-From Pika Require Import Base.Conc Model.RwMutex Proofs.RwMutexProofs.
+   by the monitors of tools/props/c04.py only): rw_progress (stuck => every started access whose
+   predecessors are released has been granted) and [bad = false] under the sequential-use
+   contract of the mutex object (unconditionally it is refuted below); both need an invariant
+   over the thread-local work lists. *)
+From Coq Require Import List Arith Sorted.
+From Pika Require Import Base.Conc Model.RwMutex Proofs.RwMutexProofs Proofs.RwMutexLogProofs Proofs.RwMutexReqProofs Proofs.RwMutexQueueProofs.
 Import ListNotations.
 
 (* wrappers of two different groups never exist at the same time: a read-write access never
@@ -66,6 +67,121 @@ Theorem C04_rw_queue_wellformed : forall sched k l e, let g := fst (rw_run sched
 Proof. exact rw_queue_wf. Qed.
 Print Assumptions C04_rw_queue_wellformed.
 
+(* ---- log forms (second invariant layer, Proofs/RwMutexLogProofs.v) ----
+   [elog] is the ghost event log, newest first.  [grps l] = the request groups of the grant and
+   use events of l, [grant_grps l] = those of the grant events only, [grant_toks l] = the tokens
+   of the grant events, [nwrites l] = number of read-write uses in l, [ge_nat a b] = b <= a. *)
+
+(* rw_request_order: accesses are granted in request order.  (1) the grant log, read from the
+   newest entry, has non-increasing group numbers; (2) the same, positionally: a grant that was
+   logged before another belongs to the same or an earlier request group; (3) the group and the
+   request index recorded in a grant are those of the granted token (groups are numbered in
+   request order: request i is in a group >= that of request j whenever i >= j).  Grants inside
+   one read group may happen in any order, which the property allows. *)
+Theorem C04_rw_request_order : forall sched, let g := fst (rw_run sched) in
+  StronglySorted ge_nat (grant_grps (elog g)) /\
+  (forall l1 l2 e k r e' k' r', elog g = l1 ++ EGrant e' k' r' :: l2 -> In (EGrant e k r) l2 -> k <= k') /\
+  (forall e k r, In (EGrant e k r) (elog g) -> k = tgrp (tok g e) /\ r = treq (tok g e)).
+Proof. exact rw_request_order. Qed.
+Print Assumptions C04_rw_request_order.
+
+(* group numbers follow request indices ([treq] = position of the request in the sequence of
+   read()/readwrite() calls; a copy of a read sender/wrapper inherits it): of two granted
+   accesses the one in the earlier group was requested earlier, and accesses with the same
+   request index are in the same group.  Together with C04_rw_request_order: grants happen in
+   the order of the requests, up to reordering inside one read group. *)
+Theorem C04_rw_request_index : forall sched, let g := fst (rw_run sched) in
+  forall e1 k1 r1 e2 k2 r2, In (EGrant e1 k1 r1) (elog g) -> In (EGrant e2 k2 r2) (elog g) ->
+    (k1 < k2 -> r1 < r2) /\ (r1 = r2 -> k1 = k2) /\ r1 < nreq g /\ k1 < ngrp g.
+Proof. exact rw_request_index. Qed.
+Print Assumptions C04_rw_request_index.
+
+(* grants AND uses of the value together are sorted by request group *)
+Theorem C04_rw_log_sorted : forall sched, StronglySorted ge_nat (grps (elog (fst (rw_run sched)))).
+Proof. exact rw_log_sorted. Qed.
+Print Assumptions C04_rw_log_sorted.
+
+(* rw_granted_once: no token is granted twice; a granted token exists and was started
+   ([tstarted] is set by CStart only); a started token is either still waiting for its grant
+   (starting / queued / grant decided) or has been granted; a waiting token has not been
+   granted yet.  ("At least once" is the progress statement.) *)
+Theorem C04_rw_granted_once : forall sched, let g := fst (rw_run sched) in
+  NoDup (grant_toks (elog g)) /\
+  (forall e k r, In (EGrant e k r) (elog g) -> e < ntok g /\ tstarted (tok g e) = true) /\
+  (forall e, tstarted (tok g e) = true -> pend (tst (tok g e)) = true \/ In e (grant_toks (elog g))) /\
+  (forall e, pend (tst (tok g e)) = true -> tstarted (tok g e) = true /\ ~ In e (grant_toks (elog g))).
+Proof. exact rw_granted_once. Qed.
+Print Assumptions C04_rw_granted_once.
+
+(* rw_writer_alone: a read-write access never overlaps ANY other access.  The code makes the
+   read-write sender and wrapper move-only (async_rw_mutex_copyability<readwrite> deletes the
+   copy operations, the readwrite wrapper deletes them too), so a read-write group has a single
+   access lineage: (1) two wrappers that exist at the same time, one of them of a read-write
+   group, are the same wrapper; (2) a read-write group never has two access references (sender,
+   operation state or wrapper) at all; (3) a read-write group is granted at most once. *)
+Theorem C04_rw_writer_alone : forall sched, let g := fst (rw_run sched) in
+  (forall e1 e2, is_wrapper (tst (tok g e1)) = true -> is_wrapper (tst (tok g e2)) = true ->
+     gkind (grp g (tgrp (tok g e1))) = KW -> e1 = e2) /\
+  (forall e1 e2, acc (tst (tok g e1)) = true -> acc (tst (tok g e2)) = true -> tgrp (tok g e1) = tgrp (tok g e2) ->
+     gkind (grp g (tgrp (tok g e1))) = KW -> e1 = e2) /\
+  (forall e1 e2 k r1 r2, In (EGrant e1 k r1) (elog g) -> In (EGrant e2 k r2) (elog g) -> gkind (grp g k) = KW -> e1 = e2).
+Proof. exact rw_writer_alone. Qed.
+Print Assumptions C04_rw_writer_alone.
+
+(* rw_sees_prior_writes: take any use of the value in the log (l2 = what happened before it,
+   l1 = what happened after it).  The version it saw is the number of modifications made before
+   it; every modification made before it belongs to the same or an earlier request group,
+   every modification made after it to the same or a later one, strictly earlier / later
+   when the access is a read.  Hence a read of group k sees exactly the modifications of all
+   read-write groups < k — all of them, and nothing else. *)
+Theorem C04_rw_sees_prior_writes : forall sched, let g := fst (rw_run sched) in
+  forall l1 l2 e k s wr, elog g = l1 ++ EUse e k s wr :: l2 ->
+    s = nwrites l2 /\ wr = kind_eqb (gkind (grp g k)) KW /\
+    (forall e' k' s', In (EUse e' k' s' true) l2 -> k' <= k /\ (wr = false -> k' < k)) /\
+    (forall e' k' s', In (EUse e' k' s' true) l1 -> k <= k' /\ (wr = false -> k < k')).
+Proof. exact rw_sees_prior_writes. Qed.
+Print Assumptions C04_rw_sees_prior_writes.
+
+(* rw_value_outlives: while any reference to a shared state exists (in particular an access
+   wrapper), that shared state still holds its reference to the wrapped value, the value's
+   reference count is positive and the value has not been destroyed — whether or not the mutex
+   still exists; the count is exactly [mutex still holds it] + #shared states holding it. *)
+Theorem C04_rw_value_outlives : forall sched e, let g := fst (rw_run sched) in
+  alive (tst (tok g e)) = true ->
+  vheld (grp g (tgrp (tok g e))) = true /\ 1 <= vrefs g /\ vfreed g = false /\
+  vrefs g = b2n (mvheld g) + cnt (fun k => vheld (grp g k)) (ngrp g).
+Proof. exact rw_value_outlives. Qed.
+Print Assumptions C04_rw_value_outlives.
+
+(* partial form of rw_progress (safety half: no grant is lost between the CAS-push and the
+   sentinel exchange): an operation state that was pushed is in the list of its group, which the
+   exchange in done() takes as a whole (every element gets its continuation, WDx); once the
+   head is the sentinel no operation state of that group is waiting in the queue (a later start
+   sees the sentinel and is granted inline).  Full statement, NOT proven (needs an invariant over
+   the thread-local work lists: every transient owner state TStarting/TGranting/TAuto/TTemp/TDone t,
+   every group in destructor phase 1/2 and every pending done() is backed by a work item of its
+   thread):
+     forall sched, (forall t, snd (rw_run sched) t = []) -> forall e, tstarted (tok g e) = true ->
+       (forall e', alive (tst (tok g e')) = true -> tgrp (tok g e) <= tgrp (tok g e')) ->
+       In e (grant_toks (elog g)) *)
+Theorem C04_rw_progress_partial : forall sched, let g := fst (rw_run sched) in
+  (forall e, tst (tok g e) = TQueued -> exists l, head (grp g (tgrp (tok g e))) = HList l /\ In e l) /\
+  (forall e, head (grp g (tgrp (tok g e))) = HSent -> tst (tok g e) <> TQueued).
+Proof. exact rw_no_lost_push. Qed.
+Print Assumptions C04_rw_progress_partial.
+
+(* [bad = false] in every reachable state is FALSE for the model as written: it lets other
+   threads use the sender of a request and issue mutex calls while the requesting thread is
+   still inside read()/readwrite() (the first group's done() is a separate work item), which
+   C++ does not allow (the sender has not been returned yet; concurrent calls on the mutex
+   object are excluded by its contract).  Witness: thread 0 requests; thread 1 drops that
+   sender and destroys the mutex; thread 0 then runs done() on the destroyed first group.  The
+   lock-step harness never produces such a schedule (it issues a mutex call only when no thread
+   is inside one); `bad = 0` is compared on every replayed schedule. *)
+Theorem C04_rw_no_bad_refuted : exists sched, bad (fst (rw_run sched)) = true.
+Proof. exact rw_no_bad_refuted. Qed.
+Print Assumptions C04_rw_no_bad_refuted.
+
 (* non-vacuity: W, R, R requested; the writer is granted inline; both readers queue behind it
    (one CAS fails spuriously first); releasing the writer runs its destructor on thread 1, whose
    exchange hands the access to both readers in LIFO order; the mutex is destroyed while the
@@ -81,6 +197,7 @@ Example C04_rw_example :
                 (0, CStep false); (2, CUse 1)] in
   let g := fst (rw_run sched) in
   tst (tok g 1) = TLive /\ tst (tok g 3) = TLive /\ tgrp (tok g 1) = 1 /\ refs (grp g 0) = 0 /\
-  refs (grp g 1) = 2 /\ vfreed g = false /\ bad g = false /\
+  refs (grp g 1) = 2 /\ vfreed g = false /\ bad g = false /\ malive g = false /\ mvheld g = false /\ vrefs g = 1 /\
+  tstarted (tok g 1) = true /\ gkind (grp g 0) = KW /\ gkind (grp g 1) = KR /\
   elog g = [EUse 1 1 1 false; EGrant 1 1 1; EGrant 3 1 2; ERel 0; EUse 0 0 0 true; EGrant 0 0 0].
 Proof. vm_compute. repeat split. Qed.
